@@ -229,6 +229,19 @@ def operations(grid):
     if m >= 4:
         ops.append(("covariance-LP", lambda d: d.covariance(method_smoothing="LP", kwargs_center={"bandwidth": h},
                                                              bandwidth=h, degree=1)))
+
+    def long_after_to_basis(d):
+        # LAST operation on each object: the long format after a change of representation was asked of the same object
+        # (to_basis itself may legitimately refuse tiny grids; what is compared is the long table — the content — afterwards)
+        try:
+            with warnings.catch_warnings():
+                warnings.simplefilter("ignore")
+                d.to_basis(method="PS", **ps)
+        except Exception:  # noqa: BLE001
+            pass
+        df = d.to_long().dropna()
+        return np.asarray(df[["input_dim_0", "id", "values"]].to_numpy(dtype=float))
+    ops.append(("long-format-after-to_basis", long_after_to_basis))
     return ops, h, ps
 
 
